@@ -54,6 +54,27 @@ pub fn serialise(recs: &[Vec<u8>], container: &str, wrap: usize, dir: &str, stem
             parts.push(vec![]);
             (gz(&parts, Compression::default()), format!("{}.{}.gz", stem, ext))
         }
+        "fagza" => {
+            // two stored members; the first is padded (in a FASTA description, which no consumer looks at) so that it
+            // ends exactly one byte before a 32 KiB boundary of the compressed file: the second member's magic then
+            // straddles the boundary
+            let half = texts.len() / 2;
+            let mut first: Vec<u8> = texts[..half].concat();
+            let second: Vec<u8> = texts[half..].concat();
+            let mut pad = 0usize;
+            if half > 0 {
+                for _ in 0..6 {
+                    let len = gz(&[first.clone()], Compression::none()).len();
+                    let want = (32767 + 32768 - (len % 32768)) % 32768;
+                    if want == 0 { break; }
+                    pad += want;
+                    let mut t = format!(">r0 {}\n", "p".repeat(pad)).into_bytes();
+                    t.extend(&texts[0][texts[0].iter().position(|&b| b == b'\n').unwrap() + 1..]);
+                    first = t; for x in &texts[1..half] { first.extend(x); }
+                }
+            }
+            (gz(&[first, second], Compression::none()), format!("{}.{}.gz", stem, ext))
+        }
         _ => (texts.concat(), format!("{}.{}", stem, ext)),
     };
     let path = format!("{}/{}", dir, name);
@@ -162,7 +183,7 @@ fn cli_run(sub: &str, settings: &str, container: &str, recs_t: &str, alt_t: &str
                 }
                 "cgr" => {
                     argv.extend(["comp", "cgr"].map(String::from));
-                    opt(&mut argv, "-i", "--input", Some(inp.clone())); opt(&mut argv, "-o", "--output", Some(out.to_string()));
+                    opt(&mut argv, "-i", "--input", Some(if stdin_input { "-".into() } else { inp.clone() })); opt(&mut argv, "-o", "--output", Some(out.to_string()));
                     opt(&mut argv, "-k", "--k-size", get("k")); opt(&mut argv, "-v", "--vec-size", get("v")); opt(&mut argv, "-t", "--threads", get("t"));
                     flag(&mut argv, "-c", "--counts", on("c"));
                 }
@@ -314,6 +335,17 @@ pub fn exec(p: &[&str], scratch: &str) -> String {
             }
             // stale planted chunk files are not this run's temp files: they may stay, but must not be merged
             match last.find("|leftover=") { Some(ix) if p[1] == "1" => last[..ix].to_string(), _ => last }
+        }
+        "readc" => {
+            // readc <container> <recs> : the records as the reader and the statistics pass deliver them from a container
+            let d = fresh(scratch);
+            let recs = unhex_list(p[2]);
+            let path = serialise(&recs, p[1], 60, &d, "in");
+            let format = match ktio::seq::SeqFormat::get(&path) { Some(f) => f, None => return "none".into() };
+            let it = ktio::seq::Sequences::new(format, ktio::seq::get_reader(&path).unwrap()).unwrap();
+            let items: Vec<String> = it.map(|r| format!("{}:{}:{}", r.n, r.id, hex(&r.seq))).collect();
+            let st = ktio::seq::Sequences::seq_stats(format, ktio::seq::get_reader(&path).unwrap());
+            format!("{}|{},{}", items.join(";"), st.seq_count, st.total_length)
         }
         "read" => {
             // read <file name> <expected format> <members> <expected records>
